@@ -657,6 +657,13 @@ def corpus_C18(tier):
         if j % 3 == 0:
             inst.update(restarts="soft", maxunsucc=2, maxfun=60)
         out.append(inst)
+    # tr_radius.alpha1 far below its default (legal: any value in (0, 1)): alpha1 * rho must not take rho below rhoend
+    for j in range(8 if tier == "quick" else 100):
+        inst = dict(id=860000 + j, seed=int(rng.integers(0, 2 ** 31 - 1)), n=2, m=3, prob=corpus._pick(rng, ["nl", "ros3"]), rhobeg=float(corpus._pick(rng, [0.5, 0.3, 2.0])),
+                    rhoend=1e-3, maxfun=80, diag=True, user_params={"tr_radius.alpha1": float(corpus._pick(rng, [1e-3, 2e-3, 1e-4]))})
+        if inst["prob"] == "ros3":
+            inst.update(m=2)
+        out.append(inst)
     # as many (or more) regression steps after a successful iteration as there are points: the incumbent must survive them
     for j in range(12 if tier == "quick" else 150):
         nn = int(rng.integers(2, 4))
